@@ -997,6 +997,7 @@ fn part_multifile(args: &RunArgs, rep: &Reporter) -> J {
     projects.extend(crate::c12::import_projects().into_iter().map(|p| ("three-files", p)));
     projects.extend(crate::c12::same_specifier_projects().into_iter().map(|p| ("same-specifier-in-two-directories", p)));
     projects.extend(diamond_projects().into_iter().map(|p| ("diamond", p)));
+    projects.extend(crate::c12::climb_projects().into_iter().map(|p| ("same-file-name-in-ancestor-directories", p)));
     let confirmed = AtomicU64::new(0);
     let dropped = AtomicU64::new(0);
     crate::explore::par_for(projects.len(), args.threads, |i| {
@@ -1038,7 +1039,7 @@ fn part_multifile(args: &RunArgs, rep: &Reporter) -> J {
             }
         }
     });
-    json!({"projects": projects.len(), "confirmed_valid_and_checked": confirmed.load(Ordering::Relaxed), "dropped_as_not_valid_per_reference": dropped.load(Ordering::Relaxed), "families": {"three-files": 288, "same-specifier-in-two-directories": 16, "diamond": projects.iter().filter(|p| p.0 == "diamond").count()}})
+    json!({"projects": projects.len(), "confirmed_valid_and_checked": confirmed.load(Ordering::Relaxed), "dropped_as_not_valid_per_reference": dropped.load(Ordering::Relaxed), "families": {"three-files": 288, "same-specifier-in-two-directories": 16, "diamond": projects.iter().filter(|p| p.0 == "diamond").count(), "same-file-name-in-ancestor-directories": projects.iter().filter(|p| p.0 == "same-file-name-in-ancestor-directories").count()}})
 }
 
 /// Valid definitions appended to the schema that share a name with something built in, across the two
